@@ -165,6 +165,7 @@ class Interp:
         self.lambdas: Dict[int, Tuple[ast.Lambda, Module, Optional[FunctionInfo], Env]] = {}
         self.nested_envs: Dict[str, Env] = {}
         self.dictmaps: Dict[Atom, tuple] = {}
+        self.explicit_keys: Dict[Atom, set] = {}
         self.passes = 0
 
     # ------------------------------------------------------------ primitives
@@ -412,7 +413,7 @@ class Interp:
                     else:
                         out |= self.synth("getitem", a, keyval)
                     continue
-                shadowed = key is not None and bool(self.hget(a, ("k", key)))
+                shadowed = key is not None and (bool(self.hget(a, ("k", key))) or key in self.explicit_keys.get(a, ()))
                 if a in self.dictmaps and not shadowed:
                     out |= self._dictmap_read(a, key, fr)
                 if key is None:
@@ -811,6 +812,9 @@ class Interp:
             self.hadd(n, KEYS, kv)
             kc = _single_const(kv)
             self.hadd(n, ("k", kc) if kc is not _NOCONST else E, vv)
+            if kc is not _NOCONST:
+                # the display gives this key a value of its own, whatever `**other` holds under it - also while that value is still empty in the fixpoint iteration
+                self.explicit_keys.setdefault(n, set()).add(kc)
         return frozenset([n])
 
     def _e_JoinedStr(self, fr, node):
